@@ -13,7 +13,7 @@ from harness.common import ASSUME, FAIL, PASS, check, tape_harness  # noqa: F401
 from harness import oracles as O
 from harness.known import listed
 from harness.stubeval import StubError, parse_stub
-from harness.values import Grammar, build_value, show
+from harness.values import ChoiceGrammar, Grammar, build_value, show
 from vfix import classes as K
 from vfix import funcs as F
 
@@ -185,6 +185,48 @@ def order_body(t, n_traces=3, g=G_ORD, honour_known=True, with_dup=True, rets=RE
     return check(True)
 
 
+def _interference(k):
+    """Other stub generations: batches of traces of OTHER functions of the fixture modules.  In each batch every parameter whose
+    default is None is observed with ONE type of a pool that contains the types the target's annotations are made of (scalars,
+    containers, a class, a str-keyed dict) and never with None; the other parameters take the next types of the pool."""
+    import inspect
+    from typing import Dict, List, Set, Tuple
+
+    pool = [int, str, List[int], Dict[str, int], F.Klass, get_type({"a": 1, "b": "s"}, k), type(None)]
+    batches = []
+    for i, ty in enumerate(pool[:-1]):
+        batch = []
+        for fn in (F.all_kinds,):
+            params = [(n, p) for n, p in inspect.signature(fn).parameters.items() if n not in ("self", "cls") and p.kind not in (p.VAR_POSITIONAL, p.VAR_KEYWORD)]
+            batch.append(CallTrace(fn, {n: (ty if p.default is None else pool[(i + j) % len(pool)]) for j, (n, p) in enumerate(params)}, pool[(i + 1) % len(pool)]))
+        batches.append(batch)
+    return batches
+
+
+def runs_body(t):
+    """The same rows give the same stub again after ANOTHER stub generation has run in the process (stub generation keeps no
+    state that leaks from one generation into the next)."""
+    k = (0, 3)[t.take(2)]
+    rewriter = (MT.NoOpRewriter(), MT.DEFAULT_REWRITER)[t.take(2)]
+    traces = []
+    func = (F.mod_func, F.Klass.method)[t.take(2)]
+    traces.append(CallTrace(func, {"a": get_type(build_value(t, G_ORD), k)}, RETS[t.take(2)]))
+    first = render(traces, k, rewriter, None)
+    for batch in _interference(k):
+        render(batch, k, rewriter, None)
+    again = render(traces, k, rewriter, None)
+    if set(first) != set(again):
+        return check(False, "different modules stubbed after another generation")
+    for m in first:
+        r = same_stub(first[m], again[m], m)
+        if r:
+            return check(False, lambda: f"k={k} rewriter={type(rewriter).__name__}: after another stub generation in the same process: {r}\n--- first ---\n{first[m]}\n--- again ---\n{again[m]}")
+    return check(True)
+
+
+tape_harness("runs", [("t", 24)], {}, runs_body, globals())
+
+
 SAMESIG_FUNCS = (F.mod_func, F.unannotated, F.Klass.method)  # (a, b) twice, (self, a)
 SAMESIG_TYPES = (int, F.Klass, None)  # a class of the stubbed module itself, a class of another module; None = parameter not traced
 
@@ -292,13 +334,37 @@ def store_body(t, n_calls=3):
 
 tape_harness("store_order", [("t", 18)], {}, store_body, globals())
 tape_harness("store_order2", [("t", 14)], {}, lambda t: store_body(t, 2), globals())
+# three traces whose types make a union with an EMPTY container, a non-empty one of the same kind and a member that itself
+# contains a union (rewriters that walk the members must give the same result whatever the member order)
+G_ORDU = ChoiceGrammar("ordu", (lambda: [], lambda: [1], lambda: {"a": 1, "b": "s"}, lambda: set(), lambda: None))
+
+
+def orderu_body(t):
+    """Default rewriter, k = 0: the three rows in every order (sets iterate in insertion order here, so the members of the
+    union the rewriters see follow the order of the rows)."""
+    vals = [build_value(t, G_ORDU) for _ in range(3)]
+    traces = [CallTrace(F.mod_func, {"a": get_type(v, 0)}, None) for v in vals]
+    base = render(traces, 0, MT.DEFAULT_REWRITER, None)
+    rest, perm = list(traces), []
+    while rest:
+        perm.append(rest.pop(t.take(len(rest)) if len(rest) > 1 else 0))
+    other = render(perm, 0, MT.DEFAULT_REWRITER, None)
+    for m in base:
+        r = same_stub(base[m], other[m], m)
+        if r:
+            return check(False, lambda: f"DEFAULT_REWRITER, rows {[show(v) for v in vals]} in another order: {r}\n--- rows in order ---\n{base[m]}\n--- permuted ---\n{other[m]}")
+    return check(True)
+
+
+tape_harness("order3u", [("t", 6)], {}, orderu_body, globals())
 tape_harness("order3", [("t", 48)], {}, lambda t: order_body(t, 3, G_ORD3), globals())
 tape_harness("order2q", [("t", 30)], {}, lambda t: order_body(t, 2, G_ORD, True, False, RETS[:2]), globals())
 tape_harness("order2", [("t", 30)], {}, lambda t: order_body(t, 2, G_ORD2), globals())
 tape_harness("diamond1", [("t", 18)], {}, lambda t: diamond_body(t, 1), globals())
 tape_harness("diamond", [("t", 18)], {}, diamond_body, globals())
 _B = {"samesig": samesig_body, "order3": lambda t: order_body(t, 3, G_ORD3), "order2": lambda t: order_body(t, 2, G_ORD2), "order2q": lambda t: order_body(t, 2, G_ORD, True, False, RETS[:2]),
-      "diamond": diamond_body, "diamond1": lambda t: diamond_body(t, 1), "store_order": store_body, "store_order2": lambda t: store_body(t, 2)}
+      "diamond": diamond_body, "diamond1": lambda t: diamond_body(t, 1), "store_order": store_body, "store_order2": lambda t: store_body(t, 2), "runs": runs_body,
+      "order3u": orderu_body}
 
 
 def shards(name, prefix=5):
